@@ -103,6 +103,6 @@ def strat_general(tier):
 
 
 PARTS = [
-    Part("fork-join", run, strat_directed, {"quick": 2000, "thorough": 60000}, rule=RULE),
-    Part("general", run, strat_general, {"quick": 1000, "thorough": 30000}, rule="general random definitions with many joins"),
+    Part("fork-join", run, strat_directed, {"quick": 2000, "thorough": 20000}, rule=RULE),
+    Part("general", run, strat_general, {"quick": 1000, "thorough": 10000}, rule="general random definitions with many joins"),
 ]
